@@ -124,6 +124,10 @@ def calls(rng, matrix, tier):
             for st in ([], ["a"], ["", "b c"]):
                 for last in (None, 7):
                     out.append(("optQuery", {"first": first, "lst": lst, "st": st, "last": last}, "r", None))
+    # macro-only endpoint with the attribute forms (no `name` on path parameters, log_as naming another template parameter)
+    for cls in ("plain", "reserved", "unicode"):
+        out.append(("attrs", {"b": "ok:" + text_of(cls, rng), "bee": "ok:" + text_of(cls, rng), "sea": rng.choice(INTS), "pq": "ok:" + text_of(cls, rng),
+                              "hh": "ok:" + text_of("plain", rng)}, "r", None))
     out.append(("names", {"type": 1, "fooBar": UUID, "async": 2, "camelCase": None, "self": 3, "snake_arg": [4, 5], "match": True}, "n", None))
     out.append(("safeMix", {"auth": "tok", "safePath": "sp", "unsafePath": "u p/x", "safeQuery": "s&q", "unsafeQuery": "", "safeHeader": "sh",
                             "unsafeHeader": "uh", "dnlQuery": None, "safeInt": 5, "body": {"a": 1}}, "r", None))
@@ -134,6 +138,7 @@ def calls(rng, matrix, tier):
 PAIRS = {"default": [("gen-blocking", "gen-blocking"), ("gen-async", "gen-async"), ("gen-blocking", "gen-async"), ("gen-async", "gen-blocking")],
          "twin": [("gen-blocking", "gen-blocking"), ("gen-async", "gen-async"), ("gen-blocking", "macro-blocking"), ("gen-async", "macro-async"),
                   ("macro-blocking", "gen-blocking"), ("macro-async", "gen-async"), ("macro-blocking", "macro-async"), ("macro-async", "macro-blocking")]}
+PAIRS["macro"] = [("macro-blocking", "macro-blocking"), ("macro-async", "macro-async"), ("macro-blocking", "macro-async"), ("macro-async", "macro-blocking")]
 TWIN = {"headers", "authHeader", "authCookie", "unit", "names"}
 # arguments the macro twin's endpoints/clients do not carry (subset of the generated signature)
 TWIN_QUERY = {"qs", "qo", "ql", "qb"}
@@ -154,7 +159,7 @@ def run(tier, seed):
     docs, meta = [], {}
     k = 0
     for endpoint, args, ret, m in calls(rng, matrix, tier):
-        pairs = PAIRS["twin"] if endpoint in TWIN else PAIRS["default"]
+        pairs = PAIRS["macro"] if endpoint == "attrs" else PAIRS["twin"] if endpoint in TWIN else PAIRS["default"]
         if endpoint == "queryParams":
             pairs = PAIRS["default"] + [("macro-blocking", "gen-async"), ("macro-async", "gen-blocking"), ("gen-blocking", "macro-async"),
                                         ("gen-async", "macro-blocking")]
